@@ -72,7 +72,7 @@ THEOREMS = [
     "OllamaVerif.C03.empty_digest_panics",
     "OllamaVerif.C03.size_lie_accepted",
 ]
-FILES = ["zz_verif_c03_test.go", "zz_verif_c03net_test.go", "zz_verif_c03gen_test.go", "zz_verif_c03big_test.go", "zz_verif_c03two_test.go", "zz_verif_c03json_test.go"]
+FILES = ["zz_verif_c03_test.go", "zz_verif_c03net_test.go", "zz_verif_c03gen_test.go", "zz_verif_c03big_test.go", "zz_verif_c03two_test.go", "zz_verif_c03json_test.go", "zz_verif_c03rep_test.go"]
 OVERLAY = {"server/" + f: "server/" + f for f in FILES}
 
 
@@ -99,7 +99,7 @@ def crash_site(out):
 def run(ctx):
     ctx.lean_check(MODULES, THEOREMS)
     env = {"VERIF_N": ctx.scale(400, 12000), "VERIF_NCH": ctx.scale(2000, 60000),
-           "VERIF_NPLAN": ctx.scale(40, 2000), "VERIF_NTWO": ctx.scale(40, 1500), "VERIF_CORPUS": os.path.join(core.ROOT, "corpus", "C03")}
+           "VERIF_NPLAN": ctx.scale(40, 2000), "VERIF_NTWO": ctx.scale(40, 1500), "VERIF_NREP": ctx.scale(150, 4000), "VERIF_CORPUS": os.path.join(core.ROOT, "corpus", "C03")}
     if ctx.replay:
         env["VERIF_REPLAY"] = ctx.replay_line_file()
     # The driver announces every case before it runs.  If the code under test kills the process (a panic on a
